@@ -82,7 +82,7 @@ func checkCountedLastElement(r *Run, cg *CallGraph, reach map[*types.Func]*cgEdg
 			c, _ := constant.Int64Val(tv.Value)
 			n++
 			construct := shortFuncName(fn) + ":" + exprString(r.Fset, ix)
-			guarded := lowerBounded(info, pathConditions(fd.Body, ix), info.Uses[id], c) || lenGuarded(r, info, fd, ix, of)
+			guarded := lowerBounded(info, controlConds(fd.Body, ix), info.Uses[id], c) || lenGuarded(r, info, fd, ix, of)
 			if !guarded {
 				// an earlier `if n == 0 { return … }` (or n < c) in the function
 				ast.Inspect(fd.Body, func(y ast.Node) bool {
@@ -207,7 +207,7 @@ func lenGuarded(r *Run, info *types.Info, fd *ast.FuncDecl, at ast.Node, of stri
 		}
 		return be.Op == token.GTR || be.Op == token.NEQ
 	}
-	for _, l := range pathConditions(fd.Body, at) {
+	for _, l := range controlConds(fd.Body, at) {
 		if positive(l.Expr, l.Neg) {
 			return true
 		}
@@ -374,7 +374,7 @@ func lenAtLeast(r *Run, info *types.Info, fd *ast.FuncDecl, at ast.Node, name st
 		}
 		return false
 	}
-	for _, l := range pathConditions(fd.Body, at) {
+	for _, l := range controlConds(fd.Body, at) {
 		if implies(l.Expr, l.Neg) {
 			return true
 		}
